@@ -183,10 +183,17 @@ def run(ctx):
 def found_needs_full_compare(ctx):
     """S5 FOUND-NEEDS-FULL-COMPARE: slots carry a zero-padded 4-byte prefix, so equal prefixes do not imply equal keys ("ab" and
     "ab\\0" share one).  Every SearchResult::Found built by find_key_simd is dominated by a comparison of the full stored key with the
-    probe (Ord::cmp on byte slices)."""
+    whole probe (Ord::cmp on byte slices, one operand being the `key` parameter itself, not a sub-slice)."""
     m = ctx.m
     f = m.fn(S + "find_key_simd")
-    cmps = [c for c in f.calls if c.name.rsplit("::", 1)[-1] == "cmp" and "[u8]" in c.full]
+    from paths import arg_origin
+    probe = [i for i in range(1, f.nargs + 1) if any(d[0] == "key" and d[1][0] == i and not d[1][1] for d in f.dbg)]
+    if len(probe) != 1:
+        raise CheckError("find_key_simd: probe parameter `key` not found")
+    # the comparison must take the probe itself, not a sub-slice of it: with both sides cut behind the padded prefix, keys that
+    # differ only inside the padding ("a" / "a\\0") compare equal
+    cmps = [c for c in f.calls if c.name.rsplit("::", 1)[-1] == "cmp" and "[u8]" in c.full
+            and any(arg_origin(f, c, i)[0] == "arg" and arg_origin(f, c, i)[1] == probe[0] for i in range(len(c.args)))]
     founds = [(bb, s) for bb, b in enumerate(f.blocks) for s in b["s"]
               if s[0] == "=" and s[2][0] == "agg" and s[2][1] == "adt" and s[2][2].endswith("SearchResult") and s[2][3] == "Found"]
     if not founds:
